@@ -201,6 +201,14 @@ func IteF(c bool, a, b float64) float64 {
 	return b
 }
 
+// IteI selects an int without branching.
+func IteI(c bool, a, b int) int {
+	if c {
+		return a
+	}
+	return b
+}
+
 // Nm builds an indexed nondet name.
 func Nm(prefix string, idx ...int) string { return nameOf(prefix, idx) }
 
